@@ -43,6 +43,8 @@ func elemToI(v int) interface{} {
 	switch v {
 	case nilElem:
 		return nil
+	case 4:
+		return (*int)(nil) // a typed nil pointer: an ordinary element (== itself), but "nil" for FilterNotNil
 	case 5:
 		return ptrElem5
 	case 6:
@@ -56,12 +58,14 @@ func elemFromI(x interface{}) int {
 	case nil:
 		return nilElem
 	case int:
-		if t == 5 || t == 6 {
+		if t == 4 || t == 5 || t == 6 {
 			return badElem
 		}
 		return t
 	case *int:
 		switch t {
+		case nil:
+			return 4
 		case ptrElem5:
 			return 5
 		case ptrElem6:
@@ -741,7 +745,7 @@ func (iFamily) name() string { return "I" }
 func (iFamily) newStream(kind int, elems []int) stream {
 	hasNil := false
 	for _, v := range elems {
-		if v == nilElem || v == 5 || v == 6 { // not plain ints in this family: FromArrayInt cannot build them
+		if v == nilElem || v == 4 || v == 5 || v == 6 { // not plain ints in this family: FromArrayInt cannot build them
 			hasNil = true
 		}
 	}
